@@ -407,7 +407,7 @@ def run_model(fam, cases, mask, oracles, workdir, name, nshards=NCPU, coq_sample
     corr_fail, orc_fail = [], {o: [] for o in oracles}
     for idxs, r in zip([s_ for s_ in shards if s_], results):
         if "error" in r:
-            return None, None, r["error"]
+            return None, None, (r["error"] or "model driver shard died without output")
         for k in r.get("corr", []):
             corr_fail.append(idxs[k])
         for o in oracles:
